@@ -17,7 +17,7 @@ def optStr : Option Str → Json
 
 partial def schJ : Sch → Json
   | .obj ps fl => Json.mkObj [("obj", Json.arr (ps.map fun p => Json.mkObj [("name", str p.1), ("required", p.2.1), ("schema", schJ p.2.2)]).toArray),
-                              ("flat", Json.arr (fl.map schJ).toArray)]
+                              ("flat", Json.arr (fl.map fun x => match schJ x.2 with | .obj kvs => if x.1 then Json.obj (kvs.insert "optional" (Json.bool true)) else Json.obj kvs | j => j).toArray)]
   | .enm ns => Json.mkObj [("enum", Json.arr (ns.map str).toArray)]
   | .oneOf ss => Json.mkObj [("oneOf", Json.arr (ss.map schJ).toArray)]
   | .anyOf ss => Json.mkObj [("anyOf", Json.arr (ss.map schJ).toArray)]
@@ -97,7 +97,7 @@ def runCase (j : Json) : Except String Json := do
     let e : EnumDef := { renameAll := ← jrule d "rename_all", renameAllFields := ← jrule d "rename_all_fields", tag := jos d "tag", content := jos d "content",
                          untagged := jb d "untagged", variants := vs }
     let m := match Macro.schemaOfVariants e with | some s => schJ s | none => Json.mkObj [("panic", true)]
-    let s := if vs.all (·.fields.isUnit) then Json.mkObj [("names", match Serde.unitNames e with | some ns => Json.arr (ns.map str).toArray | none => Json.mkObj [("panic", true)])]
+    let s := if vs.all (·.fields.isUnit) && e.tag.isNone && !e.untagged then Json.mkObj [("names", match Serde.unitNames e with | some ns => Json.arr (ns.map str).toArray | none => Json.mkObj [("panic", true)])]
       else Json.mkObj [("wires", Json.arr ((vs.filter fun v => !(v.skip || v.skipSer)).map fun v =>
         Json.mkObj [("wire", wireJ (Serde.wire e v)),
                     ("keys", match v.fields with | .named l => keysJ (Serde.keys (Serde.variantFieldRule e v) false l) | _ => Json.null)]).toArray)]
